@@ -151,3 +151,7 @@ PROPERTY = Property(
     assumptions=["predict_rank uses the n-team performance variance n*beta^2 also for n = 2 (the statement's 'same pairwise form')",
                  "inverse CDF evaluated as sqrt(2) erfinv(2p-1) in mpmath"],
 )
+
+from vf import opt as _opt  # noqa: E402
+
+PROPERTY.clauses.append(_opt.optimised("C12", next(c for c in PROPERTY.clauses if c.name == "closed-forms"), quick=64, thorough=640))
